@@ -87,11 +87,71 @@ def run(rep, tier):
         if sbad != [2, 3, 4, 5]:
             raise ToolError("binding self-test FAILED: corrupted events 2..5, rejected %s" % sbad)
         rep.extra["binding_selftest"] = {"corrupted": 4, "rejected": 4}
+    # 4. wrapper and composite keys (19 further serialisable types, incl. the bin-fhe key bundles): grammar-free consequences
+    #    of the contract (Wire.CompOK); the harness sweeps EVERY truncation point and the header dictionary per case
+    from concurrent.futures import ThreadPoolExecutor
+    gc = common.tlc("Serial/Gen_Comp", cfg="Serial/Gen_Comp_quick" if quick else "Serial/Gen_Comp_thorough", workers=2, wd=wd, timeout=900)
+    common.tlc_must(gc, "Gen_Comp")
+    cdesc = [json.loads(json.loads(x)) for x in gc.printed("DESC")]
+    if not gc.ok or len(cdesc) != gc.distinct - 1 or not cdesc:
+        raise ToolError("Gen_Comp did not complete:\n" + gc.out[-1500:])
+    rep.add_tlc(gc, "gen:comp")
+    cdesc.sort(key=lambda x: json.dumps(x, sort_keys=True))
+    for i, x in enumerate(cdesc):
+        x["id"] = i + 1
+    nsh = 12
+    def shard(k):
+        dp, ep = os.path.join(wd, "comp.%d.descs.ndjson" % k), os.path.join(wd, "comp.%d.events.ndjson" % k)
+        common.write_ndjson(dp, cdesc[k::nsh])
+        pp = common.harness(["wire", dp, ep], env={"VERIF_SEED": common.seed()}, timeout=7200)
+        if pp.returncode != 0:
+            raise ToolError("harness wire (composite) failed\n" + pp.stdout[-2000:])
+        return common.read_ndjson(ep)
+    with ThreadPoolExecutor(max_workers=nsh) as ex:
+        parts = list(ex.map(shard, range(nsh)))
+    cev = [e for part in parts for e in part]
+    if len(cev) != len(cdesc):
+        raise ToolError("composite wire: %d events for %d descriptors" % (len(cev), len(cdesc)))
+    cep = os.path.join(wd, "comp.events.ndjson")
+    common.write_ndjson(cep, cev)
+    cev, cbad = validate(rep, wd, cep, "comp")
+    rep.traces += len(cev)
+    rep.distinct += len(cev)
+    rep.evaluations += sum(1 + e["cuts"]["total"] + e["muts"]["total"] for e in cev)
+    for b in cbad:
+        e = cev[b - 1]
+        why = "clean=%s roundtrip=%s cuts=%d/%d muts=%d+%d/%d" % (e["clean"]["outcome"], e["clean"]["roundtrip"], e["cuts"]["err"], e["cuts"]["total"], e["muts"]["ok"], e["muts"]["err"], e["muts"]["total"])
+        key = "comp:%s rel=%s %s" % (e["type"], e["rel"], "clean" if (e["clean"]["outcome"] not in ("ok", "err") or not e["clean"]["post_ok"] or (e["clean"]["outcome"] == "ok" and not e["clean"]["roundtrip"]) or (e["rel"] == "same" and e["clean"]["outcome"] != "ok")) else ("cut" if e["cuts"]["err"] != e["cuts"]["total"] else "mut"))
+        if key in seen:
+            continue
+        seen.add(key)
+        rep.violation(key, "serialisation of %s violates Wire.CompOK: %s" % (e["type"], why), {"event": e, "seed": common.seed()})
+    cby = {}
+    for e in cev:
+        cby.setdefault(e["type"], {"cases": 0, "truncations": 0, "mutations": 0})
+        cby[e["type"]]["cases"] += 1
+        cby[e["type"]]["truncations"] += e["cuts"]["total"]
+        cby[e["type"]]["mutations"] += e["muts"]["total"]
+    rep.extra["composite_types"] = cby
+    # binding self-test for the composite predicate: a longer re-serialisation / an accepted truncation must be rejected
+    if cev:
+        okc = [e for e in cev if e["clean"]["outcome"] == "ok"]
+        a = json.loads(json.dumps(okc[0])); a["clean"]["roundtrip"] = False
+        b2 = json.loads(json.dumps(okc[-1])); b2["cuts"]["err"] -= 1
+        stp = os.path.join(wd, "comp.selftest.ndjson")
+        common.write_ndjson(stp, [okc[0], a, b2])
+        _, sbad = validate(rep, wd, stp, "comp-selftest")
+        if sbad != [2, 3]:
+            raise ToolError("composite binding self-test FAILED: corrupted events 2..3, rejected %s" % sbad)
+    log("[C18] %d composite cases (%d truncations, %d header mutations), %d rejected" % (len(cev), sum(v["truncations"] for v in cby.values()), sum(v["mutations"] for v in cby.values()), len(cbad)))
     for e in events[:: max(1, len(events) // 3)][:3]:
         rep.sample({k: e[k] for k in ("type", "outcome", "slen", "flen", "cut", "mutated", "cap", "msg")} | {"hdr": e["hdr"][:48]})
     rep.rule = ("for each of the 11 wire types of Wire.tla: every truncation point (quick: every byte of the first 64 then stride 16), every header field x boundary dictionary "
                 "(0,1,2^31,2^61,2^64-1,v+-1, +2^61,+2^32 overflow) and the overflowing pairs, receivers equal/larger(different wrapper metadata)/smaller; bytes fed to the real read_from "
-                "in a child process (aborts are outcomes); TLC re-parses stream and receiver headers and decides ReadOK; distinct = descriptors")
-    rep.assumptions += ["grammar of 11 types (hal: VecZnx ScalarZnx MatZnx; core: LWE GLWE GGLWE GGSW and their compressed forms); nested key types and bin-fhe keys pending",
+                "in a child process (aborts are outcomes); TLC re-parses stream and receiver headers and decides ReadOK; for the 19 wrapper / composite types (switching, automorphism, tensor, "
+                "GGLWE-to-GGSW and LWE-related keys, their compressed forms, public key, blind-rotation keys, circuit-bootstrapping and BDD key bundles) the grammar-free consequences "
+                "CompOK: clean stream accepted by a same-shape receiver, accepted => re-serialises to the identical bytes (receivers with one more / fewer limb or row), EVERY truncation "
+                "point an error, every 8-byte word of the first 512 bytes x dictionary never a panic; distinct = descriptors")
+    rep.assumptions += ["grammar of 11 types (hal: VecZnx ScalarZnx MatZnx; core: LWE GLWE GGLWE GGSW and their compressed forms); the 19 nested / bundle types have no grammar in the specification (consequences of the contract only: a header field that is accepted with a wrong meaning is not seen there)",
                         "receiver metadata observed through its own write_to header; buffer capacity taken from the allocation formula"]
     log("[C18] %d streams, %d rejected; outcomes by type: %s" % (n, len(bad), json.dumps(by)))
